@@ -152,9 +152,16 @@ func TestC05(t *testing.T) {
 		}
 		// One case in five is a long batch of small frames, so that copies can be
 		// replayed from around and beyond the far edge of the 64-frame window.
-		long := c.Weighted("batch.long", 4, 1) == 1
+		longKind := c.Weighted("batch.long", 8, 2, 1)
+		long, veryLong := longKind >= 1, longKind == 2
 		if long {
 			n = c.Int("batch.long.n", 66, 150)
+		}
+		if veryLong {
+			// ... or of several hundred frames (a link that has been up for a
+			// while), with a copy of one of the first frames coming back after
+			// more than 250 others.
+			n = c.Int("batch.verylong.n", 270, 340)
 		}
 		sent := map[string]int{} // frame bytes -> index
 		var markers [][]byte
@@ -264,6 +271,13 @@ func TestC05(t *testing.T) {
 			// A copy of an early frame, replayed 60..70 frames later.
 			at := c.Int("far.at", 0, n-66)
 			d := c.Uniform("far.d", 60, 70)
+			if veryLong {
+				at = c.Int("veryfar.at", 0, n-266)
+				d = c.Uniform("veryfar.d", 250, 264)
+				if c.Bool("veryfar.to-the-end") {
+					d = n
+				}
+			}
 			x := stream[at]
 			x.intact = false
 			x.what = fmt.Sprintf("dup-far+%d(%s)", d, x.what)
@@ -622,7 +636,9 @@ func TestC05(t *testing.T) {
 			}
 		}
 		bucket := "1-5"
-		if n > 40 {
+		if n > 150 {
+			bucket = "270-340"
+		} else if n > 40 {
 			bucket = "66-150"
 		} else if n > 20 {
 			bucket = "21-40"
